@@ -48,9 +48,8 @@ for git histories the re-exported root id (from scratch, and through a fresh
 SHA map) equals the original tree id and a second from-scratch run with the
 parents gives the same id.
 
-Mutants this was built against (scratch worktree = /repo HEAD + the proposed
-one-line fix of the finding below, so that the fetch-back half is reachable;
-all caught on seeds 0 and 1 with a concrete history):
+Mutants this was built against (scratch worktrees; all caught on seeds 0 and 1
+with a concrete history):
   M1 _tree_to_objects: dirty_dirs only gets the new path's directory
      (`for p in change.path[1:]`; a removal-only commit keeps its parent's
      root tree) — oracle: warm id != from-scratch id;
@@ -70,15 +69,15 @@ all caught on seeds 0 and 1 with a concrete history):
      oracle (revision not pushed);
   M10 _tree_to_objects: symlink blob yielded iff *not* changed_content —
      oracle (reachable object missing in the target repository);
+  R1 fix 29406e9 reverted (fetch.import_git_blob calls find_source_paths with a
+     str): fetching back a changed file named `a` / `a/a` raises TypeError —
+     plain VIOLATION (corpus/C35/single-char-path.json runs first);
+  R2 fix 9095241 reverted (_tree_to_objects does not mark the new location of
+     a renamed directory dirty when a child left it in the same revision): the
+     renamed directory's tree object is never sent — plain VIOLATION
+     (corpus/C35/moved-dir-lost-child.json);
   harmless: `sorted(dirty_dirs, reverse=True)` replaced by a sort on
   (-depth, path): stays clean.
-
-Finding (family `fetch-path-chars-are-paths`): fetch.import_git_blob calls
-`InterTree.find_source_paths(decoded_path, ...)` (plural: takes a list, returns
-a dict) with a str; when every character of the path is itself a path of the
-base tree (a changed file named `a`, or `a/a`) the dict reaches `ptree.kind()`
-and the fetch dies with TypeError; for other paths the per-character lookup
-raises NoSuchFile and the whole parent loop is silently skipped.
 """
 import hashlib
 import os
@@ -617,57 +616,6 @@ def new_native_repo():
     return cd.create_repository()
 
 
-def single_char_family(nodes_by_rev, parents):
-    """classifier of the find_source_paths(str) defect: some revision has a
-    parent and a leaf that differs from the first parent's, at a path all of
-    whose characters are paths of the first parent's tree"""
-    for revid, ch in nodes_by_rev.items():
-        ps = parents.get(revid) or []
-        if not ps:
-            continue
-        base = plain_dump_all(nodes_by_rev[ps[0]])
-        cur = plain_dump_all(ch)
-        for p, v in cur.items():
-            if v[0] == "d" or base.get(p) == v:
-                continue
-            if all(c == "/" or c in base for c in p):     # '/' resolves to the root
-                return True
-    return False
-
-
-def moved_dir_suspects(trees, parents, scratch):
-    """classifier of the dirty-directory defect: ids of the tree objects of
-    directories that were moved in a revision in which one of their children
-    was removed or moved elsewhere"""
-    infos = {}
-
-    def info(r):
-        if r not in infos:
-            d = {}
-            with trees[r].lock_read():
-                for path, ie in trees[r].iter_entries_by_dir():
-                    d[ie.file_id] = (path, ie.parent_id, ie.kind)
-            infos[r] = d
-        return infos[r]
-
-    out = set()
-    for r in trees:
-        if not parents[r]:
-            continue
-        bi, ti = info(parents[r][0]), info(r)
-        for fid, (path, par, kind) in bi.items():
-            if par is None:
-                continue
-            new = ti.get(fid)
-            if new is not None and new[1] == par:
-                continue
-            if par in ti and ti[par][2] == "directory" and ti[par][0] != bi[par][0]:
-                sha = scratch[r].get(ti[par][0])
-                if sha:
-                    out.add(sha)
-    return out
-
-
 def plain_dump_all(ch, pre=""):
     out = {}
     for name, n in ch.items():
@@ -762,7 +710,6 @@ def native_case(arg):
         ostore = grepo._git.object_store
         count("pushed", len(revidmap))
         pushed_ok = True
-        suspects = None
         for r in order:
             case = dict(base_case, rev=r.decode(), what="push")
             if r not in revidmap:
@@ -777,10 +724,7 @@ def native_case(arg):
                 objs = {}
                 git_closure(ostore, c.tree, objs)
             except KeyError as e:
-                if suspects is None:
-                    suspects = moved_dir_suspects(trees, parents, scratch)
-                fam = "moved-dir-lost-child" if e.args and e.args[0] in suspects else None
-                viol(case, "object %s reachable from the pushed revision %s is missing in the target repository" % (e, r.decode()), fam)
+                viol(case, "object %s reachable from the pushed revision %s is missing in the target repository" % (e, r.decode()))
                 pushed_ok = False
                 continue
             # the import model on what is really in the git repository
@@ -801,10 +745,7 @@ def native_case(arg):
                         back[r] = tree_nodes(brepo.revision_tree(revidmap[r][1]))
             except Exception as e:
                 fetch_err = e
-                fam = None
-                if isinstance(e, TypeError) and "not dict" in str(e) and single_char_family(nodes, parents):
-                    fam = "fetch-path-chars-are-paths"
-                viol(dict(base_case, what="fetch"), "fetching the pushed history back raised %s: %s" % (type(e).__name__, str(e)[:200]), fam)
+                viol(dict(base_case, what="fetch"), "fetching the pushed history back raised %s: %s" % (type(e).__name__, str(e)[:200]))
                 count("fetch-failed:" + type(e).__name__)
         # resolve the deferred `imp` expectations and add the `rt` lines
         keep = [i for i, x in enumerate(R["impls"]) if not isinstance(x, tuple) or x[1] in back]
@@ -965,10 +906,7 @@ def git_case(arg):
             for i in missing:
                 brepo.fetch(grepo, revision_id=revids[i])
         except Exception as e:
-            fam = None
-            if isinstance(e, TypeError) and "not dict" in str(e):
-                fam = "fetch-path-chars-are-paths" if _git_chars_family(hist) else None
-            viol(dict(base_case, what="fetch"), "fetching the git history raised %s: %s" % (type(e).__name__, str(e)[:200]), fam)
+            viol(dict(base_case, what="fetch"), "fetching the git history raised %s: %s" % (type(e).__name__, str(e)[:200]))
             count("git-fetch-failed:" + type(e).__name__)
             return R
         from breezy.git.mapping import extract_unusual_modes
@@ -1033,24 +971,6 @@ def git_case(arg):
         R["error"] = traceback.format_exc()[-1500:]
         viol(base_case, "unexpected %s in the git-first round trip: %s" % (type(e).__name__, str(e)[:300]))
     return R
-
-
-def _git_chars_family(hist):
-    for parents, files in hist:
-        if not parents:
-            continue
-        base = hist[parents[0]][1]
-        basepaths = set()
-        for p in base:
-            comps = p.split(b"/")
-            for k in range(1, len(comps) + 1):
-                basepaths.add(b"/".join(comps[:k]).decode("utf-8", "surrogateescape"))
-        for p, v in files.items():
-            if base.get(p) == v:
-                continue
-            if all(c == "/" or c in basepaths for c in p.decode("utf-8", "surrogateescape")):
-                return True
-    return False
 
 
 # --------------------------------------------------------------------------
